@@ -332,6 +332,17 @@ func buildReport(p *Prog, rr *RunResult, obls []*Obligation, prop, tier string, 
 			cov.Vacuity["known_finding_obligations"]++
 			continue
 		}
+		if o.Dependency {
+			// an obligation of the dependency closure that is an open known finding of the
+			// property it belongs to is reported there, not here
+			if f := kf.matchOther(p, repo, prop, o); f != nil {
+				rep.Lines = append(rep.Lines, fmt.Sprintf("govc: %s (dependency closure) is the open known finding of %s; it is reported by that property's check, not counted for %s", o.Name, f.Property, prop))
+				cov.Obligations--
+				cov.ByKind[o.Kind]--
+				cov.Vacuity["known_findings_of_other_properties_in_closure"]++
+				continue
+			}
+		}
 		rep.Violations++
 		cov.Failed = append(cov.Failed, sampleOf(o))
 		path := writeReplay(p, o, prop, verif, repo)
